@@ -73,9 +73,9 @@ def _jstr(s: str) -> str:
             out.append("\\b")
         elif ch == "\f":
             out.append("\\f")
-        elif o < 0x20:
+        elif o < 0x20 or o == 0x7F:
             out.append("\\u%04x" % o)
-        elif o <= 0x7F:
+        elif o < 0x7F:
             out.append(ch)
         elif o < 0x10000:
             out.append("\\u%04x" % o)
